@@ -242,12 +242,16 @@ def run_ascii(ctx):
                     ctx.fail("wrong_exception", case, f"{r!r}")
                 else:
                     ctx.count("rejected_ok")
-    for h, ok in (("a%41b", True), ("a%zzb", False), ("a%4", False), ("a%", False), ("%41", True), ("a%4gb", False)):
+    for h, ok in (("a%41b", True), ("a%zzb", False), ("a%4", False), ("a%", False), ("%41", True), ("a%4gb", False),
+                  # pct-encoded reg-names that end in a digit: the encoder probes them as IP-literal candidates first
+                  ("node%2D1", True), ("caf%C3%A9", True), ("a%41b.example9", True), ("%31", True), ("a%zz9", False), ("a%9", False)):
         for route, fn in (("build_host", lambda: URL.build(scheme="http", host=h)), ("with_host", lambda: base.with_host(h))):
             r = guarded(fn)
             ctx.ev((route, "pct", h, "exc" if is_exc(r) else "ok"))
             if ok and is_exc(r):
                 ctx.fail("legal_host_rejected", {"route": route, "host": h}, f"{r!r}")
+            if ok and not is_exc(r) and guarded(lambda: r.raw_host) != h.lower():
+                ctx.fail("raw_host_unexpected", {"route": route, "host": h}, f"raw_host={guarded(lambda: r.raw_host)!r} expected {h.lower()!r}")
             if not ok and not is_exc(r):
                 ctx.fail("illegal_host_char_accepted", {"route": route, "host": h}, f"raw_host={guarded(lambda: r.raw_host)!r}")
     ctx.sample({"route": "with_host", "host": "a b"})
